@@ -75,6 +75,20 @@ impl ModeProbe {
     }
 }
 
+impl ModeProbe {
+    /// The application's own handle of the socket (a dup made before the hand-over) can still send once the sink is
+    /// gone: None if so. A sink that shuts the shared socket down on its way out is seen here (EPIPE).
+    fn still_sends_unix(&self, dest: &std::path::Path) -> Option<String> {
+        use std::os::fd::FromRawFd;
+        let s = unsafe { UnixDatagram::from_raw_fd(dup(self.fd)) };
+        match s.send_to(b"app", dest) {
+            Ok(_) => None,
+            Err(e) if e.raw_os_error() == Some(EAGAIN) || e.raw_os_error() == Some(ENOBUFS) => None,
+            Err(e) => Some(format!("the application's own handle of the socket can no longer send: {}", e)),
+        }
+    }
+}
+
 impl Drop for ModeProbe {
     fn drop(&mut self) {
         unsafe { close(self.fd) };
@@ -475,7 +489,31 @@ fn case_unbuffered(cx: &mut Cx, cs: u64) {
         cx.rep.obs("unix_socket_paths_starting_with_a_special_byte", 1);
     }
     let unix_decoy_path = dir.join("decoy.sock");
-    let unix_recv = UnixDatagram::bind(&unix_path).unwrap();
+    // what sits at the sink's path: usually a datagram server; in a sixth of the Unix cases something a datagram cannot
+    // be sent to (a stream listener, a regular file, a socket file nobody listens on, nothing). The sink still makes
+    // exactly its one sendto per emit and hands back the socket's error - no other transport, no other socket.
+    let alt_server = if !udp && r.chance(1, 6) { Some(r.below(4)) } else { None };
+    let mut stream_listener: Option<std::os::unix::net::UnixListener> = None;
+    let recv_path = if alt_server.is_some() { dir.join("dgram-unused.sock") } else { unix_path.clone() };
+    match alt_server {
+        Some(0) => {
+            let l = std::os::unix::net::UnixListener::bind(&unix_path).unwrap();
+            l.set_nonblocking(true).unwrap();
+            stream_listener = Some(l);
+            cx.rep.obs("unix_sinks_whose_path_is_a_stream_listener", 1);
+        }
+        Some(1) => {
+            std::fs::write(&unix_path, b"not a socket").unwrap();
+            cx.rep.obs("unix_sinks_whose_path_is_a_regular_file", 1);
+        }
+        Some(2) => {
+            drop(UnixDatagram::bind(&unix_path).unwrap());
+            cx.rep.obs("unix_sinks_whose_path_is_a_dead_socket", 1);
+        }
+        Some(_) => cx.rep.obs("unix_sinks_whose_path_does_not_exist", 1),
+        None => {}
+    }
+    let unix_recv = UnixDatagram::bind(&recv_path).unwrap();
     let unix_decoy = UnixDatagram::bind(&unix_decoy_path).unwrap();
     unix_recv.set_read_timeout(Some(Duration::from_millis(500))).unwrap();
     unix_decoy.set_nonblocking(true).unwrap();
@@ -624,6 +662,18 @@ fn case_unbuffered(cx: &mut Cx, cs: u64) {
     if let Some(d) = probe.changed() {
         cx.rep.obs("socket_mode_changes_seen", 1);
         cx.violation("C13", "socket-left-as-configured", "socket-mode-changed", format!("[{}] after the sink was dropped: {}", label, d), jobj! {"sink" => label}, cs);
+    }
+    if let Some(l) = &stream_listener {
+        match l.accept() {
+            Err(e) if e.kind() == std::io::ErrorKind::WouldBlock => cx.rep.obs("stream_listeners_left_alone", 1),
+            other => cx.violation("C13", "one-datagram-per-emit", "other-transport", format!("[{}] a stream listener bound at the sink's path was connected to: {:?}", label, other.map(|_| "connection")), jobj! {"sink" => label}, cs),
+        }
+    }
+    if !udp && alt_server.is_none() {
+        cx.rep.obs("application_handles_used_after_the_sink_was_dropped", 1);
+        if let Some(d) = probe.still_sends_unix(&unix_path) {
+            cx.violation("C13", "socket-left-as-configured", "socket-shut-down", format!("[{}] after the sink was dropped: {}", label, d), jobj! {"sink" => label}, cs);
+        }
     }
     if let Some(c) = old_cwd {
         let _ = std::env::set_current_dir(c);
